@@ -619,6 +619,57 @@ func specDisplay(maxLen int) seqmc.Spec {
 	}}
 }
 
+// specDisplayHistories: a client view that is displayed, changed by the peer,
+// displayed again, changed again and displayed a third time (a POLL client
+// showing every round, a STREAM client showing at every sync): what the first
+// display left behind in the client's tree (sorted orders, cached paths) meets
+// deletes with wildcards at every position, updates below a leaf and above
+// leaves. base = four leaves on two levels.
+func specDisplayHistories() seqmc.Spec {
+	base := []respSpec{{"update", "a/x", "int1"}, {"update", "b/x", "int1"}, {"update", "b/y", "str"}, {"update", "c", "leaflist"}}
+	muts := []respSpec{
+		{"delete", "*/x", ""}, {"delete", "a/*", ""}, {"delete", "*", ""}, {"delete", "b/x", ""}, {"delete", "*/*", ""}, {"delete", "a", ""}, {"delete", "<empty>", ""}, {"delete", "*/y", ""},
+		{"update", "a/x/deep", "int1"}, {"update", "b", "int2"}, {"update", "d/x", "str"}, {"update", "a/x", "int2"},
+	}
+	displays := []string{"group", "single"}
+	types := []client.Type{client.Poll, client.Stream}
+	n := len(muts) * len(muts) * len(displays) * len(types)
+	return seqmc.Spec{Name: fmt.Sprintf("display histories: 4 leaves shown, then every pair of %d deletes/updates (wildcards at every position) each followed by another display, group/single x poll/stream", len(muts)), N: n, Run: func(i int) (string, bool, []seqmc.Violation) {
+		qt := types[i%len(types)]
+		i /= len(types)
+		dt := displays[i%len(displays)]
+		i /= len(displays)
+		m1, m2 := muts[i/len(muts)], muts[i%len(muts)]
+		syncR := respSpec{kind: "sync"}
+		var rs []*pb.SubscribeResponse
+		for _, b := range base {
+			rs = append(rs, b.build())
+		}
+		rs = append(rs, syncR.build(), m1.build(), syncR.build(), m2.build(), syncR.build())
+		desc := fmt.Sprintf("display history: a/x b/x b/y c; sync; %s(%s); sync; %s(%s); sync display=%s type=%v", m1.kind, m1.path, m2.kind, m2.path, dt, qt)
+		var vs []seqmc.Violation
+		client.ResetRegisteredImpls()
+		client.RegisterTest("stub", func(ctx context.Context, d client.Destination) (client.Impl, error) {
+			conn, err := grpc.NewClient("passthrough:///none", grpc.WithTransportCredentials(insecure.NewCredentials()))
+			if err != nil {
+				return nil, err
+			}
+			return gclient.VerifNewClientWithStub(conn, &stub{resps: rs}), nil
+		})
+		shown := 0
+		cfg := &cli.Config{Display: func(b []byte) { shown++ }, DisplayType: dt, Count: 3, PollingInterval: time.Nanosecond, Delimiter: "/", DisplayIndent: " ", ClientTypes: []string{"stub"}}
+		q := client.Query{Addrs: []string{"x"}, Target: "t", Type: qt, Queries: []client.Path{{"*"}}}
+		ctx, cancel := context.WithTimeout(context.Background(), 300*time.Second)
+		defer cancel()
+		var err error
+		guard("cli.QueryDisplay", &vs, func() string { return desc }, func() { err = cli.QueryDisplay(ctx, q, cfg) })
+		if errors.Is(err, context.DeadlineExceeded) {
+			vs = append(vs, seqmc.Violation{Class: "display-hang", Msg: desc + " did not finish"})
+		}
+		return desc, shown > 1, vs
+	}}
+}
+
 type harness struct{}
 
 func (harness) Property() string { return "C12" }
@@ -629,6 +680,7 @@ func (harness) Specs(tier string) []seqmc.Spec {
 			specIngest("ingest, single-part grammar", states(2), grammar(false)),
 			specMetaRegistry(),
 			specDisplay(2),
+			specDisplayHistories(),
 		}
 	}
 	return []seqmc.Spec{
@@ -636,6 +688,7 @@ func (harness) Specs(tier string) []seqmc.Spec {
 		specIngest("ingest, single-part grammar", states(2), grammar(false)),
 		specMetaRegistry(),
 		specDisplay(2),
+		specDisplayHistories(),
 	}
 }
 
